@@ -79,6 +79,25 @@ func genC29(t *rapid.T) PlanC29 {
 	}
 	c.mediumBlocks = true
 	tb, prefixes, keys := genTable(t, c)
+	bulk := false
+	if hasCopy && c.copyable && !wantSuffix && rapid.IntRange(0, 5).Draw(t, "bulk") == 0 {
+		// A table of several hundred KB in 4 KiB blocks, uncompressed: the
+		// block-wise copy works in batches of contiguous uncached blocks (256 KB
+		// per read), which tables of a few KB never fill.
+		bulk = true
+		n := rapid.IntRange(300, 700).Draw(t, "bulk_n")
+		tb.Points, tb.RangeDels, tb.RangeKeys, prefixes, keys = nil, nil, nil, nil, nil
+		for i := 0; i < n; i++ {
+			k := K{P: fmt.Sprintf("q%05d", i), S: -1}
+			prefixes = append(prefixes, k.P)
+			keys = append(keys, k)
+			tb.Points = append(tb.Points, Point{K: k, Seq: uint64(1 + i%50), Kind: uint8(base.InternalKeyKindSet), VLen: 900 + (i*37)%200, VSeed: i % 256})
+		}
+		tb.Opts.Compression, tb.Opts.BlockSize, tb.Opts.IndexBlockSize = "none", 4096, 4096
+		if rapid.Bool().Draw(t, "bulk_newest") {
+			tb.Opts.Format = 8
+		}
+	}
 	if p.HideObsolete && tb.Opts.LowestLevel && len(tb.Points) > 0 && isPointDelete(base.InternalKeyKind(tb.Points[0].Kind)) {
 		// Rule C3 (point deletes written to the lowest level are obsolete) is
 		// documented without exception; keep the very first point of the table
@@ -132,6 +151,12 @@ func genC29(t *rapid.T) PlanC29 {
 			End:       genKeyRef(t, keys, prefixes),
 			CacheSize: rapid.SampledFrom([]int{1 << 10, 16 << 10, 1 << 20}).Draw(t, "copy_cache"),
 			Warm:      rapid.Bool().Draw(t, "copy_warm"),
+		}
+		if bulk {
+			// most of the table, cold: many batches
+			cp.Start = KeyRef{Mode: 0, K: keys[rapid.IntRange(0, 20).Draw(t, "bulk_lo")]}
+			cp.End = KeyRef{Mode: 0, K: keys[len(keys)-1-rapid.IntRange(0, 20).Draw(t, "bulk_hi")]}
+			cp.CacheSize, cp.Warm = 1<<10, false
 		}
 		cp.Ops = genIterPlans(t, keys, prefixes, 30)[0]
 		p.Copy = cp
